@@ -92,6 +92,15 @@ def path_strings(maxlen: int, canary: Path, real: dict) -> list[str]:
                 str(canary / "new" / "shards_list.json")]
     out += absolute + ["/" + a for a in absolute] + ["//" + a
                                                      for a in absolute]
+    # the same dangerous strings written with backslashes (a single harmless
+    # component on POSIX - unless somebody "normalises" Windows paths)
+    out += [s.replace("/", "\\") for s in list(out)
+            if (".." in s.split("/") or s.startswith("/")) and len(s) > 2]
+    out += [("root-relative", a) for a in ()]  # (placeholder, keeps indices)
+    rel_up = "train/../../outside/"
+    out += [(rel_up + t).replace("/", "\\")
+            for t in ("x.fb", "shards_list.json")]
+    out += ["..\\..\\outside", "x\\..\\..\\outside\\shards_list.json"]
     out += [a.replace("/outside/", "/outside/./") for a in absolute[:2]]
     out += [a.replace("/outside/", "/root/../outside/") for a in absolute[:2]]
     # paths through the real names that normalise inside the root
